@@ -218,3 +218,13 @@ package analysis
 //@   loop range:node.Exps#0 invariant rangeindex >= -1
 //@   loop range:node.Exps#0 exits-early-only-if [every-condition-starts-a-comparison] false
 //@ end
+
+// ---- C20: duplicate keys of a table constructor (type 5) ----
+// Keys are compared by the canonical key string of GetTableConstuctorKeyStr (which separates ["1"] from [1] and
+// [k] from k). Every keyed field leaves its canonical key recorded - so that a later field with the same key IS
+// reported -, and a report is made only for a field whose canonical key had been recorded by an earlier field.
+//@ func (*Analysis).cgTableConstructorExp
+//@   props C20
+//@   loop range:node.KeyExps step [canonical-key-of-every-keyed-field-is-recorded] len(strKey) > 0 ==> has(tabKeyMap, strKey)
+//@   at call InsertRelateError#0 before assert[duplicate-key-only-for-a-canonical-key-seen-before] arg1 == common.CheckErrorTableDuplicateKey && has(tabKeyMap, strKey) && arg3 == loc
+//@ end
